@@ -33,7 +33,7 @@ def test_lock_model_conformance():
     ctx = mp.get_context("fork")
 
     def child(conn, script):
-        lock = portalocker.Lock(path, timeout=script.get("timeout", 0.3))
+        lock = portalocker.Lock(path, timeout=script.get("timeout", 0.3), fail_when_locked=script.get("fail", False))
         conn.send("constructed")
         for cmd in iter(conn.recv, "quit"):
             if cmd == "acquire":
@@ -50,9 +50,9 @@ def test_lock_model_conformance():
                 os._exit(0)
         conn.send("bye")
 
-    def spawn(timeout=0.3):
+    def spawn(timeout=0.3, fail=False):
         a, b = ctx.Pipe()
-        p = ctx.Process(target=child, args=(b, {"timeout": timeout}))
+        p = ctx.Process(target=child, args=(b, {"timeout": timeout, "fail": fail}))
         p.start()
         assert a.recv() == "constructed"
         return p, a
@@ -107,8 +107,20 @@ def test_lock_model_conformance():
         assert ask(c3, "release") == "released"
         assert c4.recv() == "acquired"                    # waiter obtains the unlinked file's lock: two holders now
         traces += 1
+        # 9. fail_when_locked: a contended attempt fails at once, however long the time-out; uncontended it locks
+        p6, c6 = spawn(timeout=5, fail=True)
+        t0 = time.time()
+        assert ask(c6, "acquire").startswith("LockException:")      # c5 holds the (new) file
+        assert time.time() - t0 < 2.0
+        assert ask(c5, "release") == "released"
+        assert ask(c6, "acquire") == "acquired"
+        assert ask(c6, "release") == "released"
+        traces += 1
+        c6.send("quit")
+        c6.recv()
+        p6.join(5)
+        assert ask(c4, "release") == "released"
         for c in (c4, c5):
-            assert ask(c, "release") == "released"
             c.send("quit")
             c.recv()
         for pp in (p4, p5):
@@ -120,7 +132,7 @@ def test_lock_model_conformance():
             p.join(5)
     finally:
         shutil.rmtree(d, ignore_errors=True)
-    assert traces == 8
+    assert traces == 9
     return traces
 
 
